@@ -136,6 +136,9 @@ pub trait QueryBuilder: ValueRenderer {
     spec fn ph(&self) -> Seq<char>;
     spec fn numbered(&self) -> bool;
     fn placeholder(&self) -> (r: (&str, bool)) ensures r.0@ == self.ph(), r.1 == self.numbered();
+    // row constructor keyword of a VALUES list: `ROW` on MySQL, nothing elsewhere
+    spec fn row_prefix(&self) -> Seq<char>;
+    fn values_list_tuple_prefix(&self) -> (r: &str) ensures r@ == self.row_prefix();
     spec fn spec_id(&self) -> QbSpec;
     // statement renderers: abstract here (their clause structure is C08's subject); each is a function of
     // (statement, backend) that only talks to the writer through the SqlWriter interface
@@ -200,5 +203,33 @@ pub open spec fn field_order_ops<QB: QueryBuilder>(qb: &QB, e: SimpleExpr, vs: S
         expr_ops(qb.spec_id(), e, field_order_ops(qb, e, vs, (k - 1) as nat, t).push(Op::Text("WHEN "@)))
             .push(Op::Text("="@)).push(Op::Text(qb.vts(vs[k - 1])))
             .push(Op::Text(" THEN "@)).push(Op::Text(num_text_int(k - 1))).push(Op::Text(" "@))
+    }
+}
+
+// ---- VALUES lists (SELECT .. FROM (VALUES ..)): one parameter per cell, row-major, rows and cells in call order ---------------
+#[verifier::external_body]
+pub struct ValueTuple { _opaque: u8 }
+// R-iterimpl (trusted here): `value_tuple.clone().into_iter()` yields the tuple's values in order (ValueTuple::into_iter is
+// C12's subject: Kani harnesses full_tuple_* check arity and order)
+pub uninterp spec fn tuple_values(t: ValueTuple) -> Seq<Value>;
+#[verifier::external_body]
+fn vtuple_values(t: &ValueTuple) -> (r: Vec<Value>) ensures r@ == tuple_values(*t) { unimplemented!() }
+
+pub open spec fn row_ops<QB: QueryBuilder>(qb: &QB, vs: Seq<Value>, j: nat, t: Seq<Op>) -> Seq<Op>
+    decreases j
+{
+    if j == 0 { t }
+    else if j == 1 { row_ops(qb, vs, 0, t).push(Op::Param(vs[0], qb.vts(vs[0]))) }
+    else { row_ops(qb, vs, (j - 1) as nat, t).push(Op::Text(", "@)).push(Op::Param(vs[j - 1], qb.vts(vs[j - 1]))) }
+}
+pub open spec fn values_list_ops<QB: QueryBuilder>(qb: &QB, rows: Seq<ValueTuple>, k: nat, t: Seq<Op>) -> Seq<Op>
+    decreases k
+{
+    if k == 0 { t.push(Op::Text("VALUES "@)) }
+    else {
+        let before = values_list_ops(qb, rows, (k - 1) as nat, t);
+        let sep = if k == 1 { before } else { before.push(Op::Text(", "@)) };
+        let vs = tuple_values(rows[k - 1]);
+        row_ops(qb, vs, vs.len(), sep.push(Op::Text(qb.row_prefix())).push(Op::Text("("@))).push(Op::Text(")"@))
     }
 }
